@@ -899,7 +899,95 @@ fn main() {
         },
     );
 
+    // ---------------------------------------------------------------- integer literals
+    // An integer written in the template is a number like any other: whatever the lexer makes of
+    // a digit string, the value is exact or the template is refused. Digit strings around every
+    // width boundary (most of them have no literal spelling the other families could use, because
+    // the engine refuses them - which is one of the two allowed answers).
+    let lit_digits: Vec<String> = {
+        let mut v: Vec<String> = vec!["0".into(), "1".into(), "7".into(), "42".into(), "9007199254740993".into()];
+        for b in [1u128 << 31, 1u128 << 32, 1u128 << 53, 1u128 << 63, 1u128 << 64, 1u128 << 127] {
+            for d in [-1i8, 0, 1] {
+                v.push(format!("{}", if d < 0 { b - 1 } else { b + d as u128 }));
+            }
+        }
+        v.push(format!("{}", u128::MAX - 1));
+        v.push(format!("{}", u128::MAX));
+        v.push("340282366920938463463374607431768211456".into()); // 2^128
+        v.push("340282366920938463463374607431768211457".into());
+        v.push(format!("1{}", "0".repeat(39)));
+        v.push(format!("1{}1", "0".repeat(39)));
+        v.push("99999999999999999999".into());
+        v.push("100000000000000000000".into());
+        v.sort_by(|a, b| (a.len(), a.as_str()).cmp(&(b.len(), b.as_str())));
+        v.dedup();
+        v
+    };
+    let nl = lit_digits.len() as u64;
+    run.extra("integer_literal_digit_strings", json!(lit_digits));
+    run.family(
+        Family::new(
+            "integer-literals",
+            nl,
+            &format!("{nl} digit strings around 2^31, 2^32, 2^53, 2^63, 2^64, 2^127, 2^128, 10^39 written as template literals: printed alone, negated, and all {nl}^2 ordered pairs through - + == < (literal/literal) and == (literal vs the same number from the context in every encoding that holds it): the exact integer or a refusal, never another number"),
+        ),
+        |item, acc: &mut Acc| {
+            let ia = item as usize;
+            let la = &lit_digits[ia];
+            let num_cmp = |a: &str, b: &str| (a.len(), a).cmp(&(b.len(), b));
+            let as_i128 = |d: &str| d.parse::<i128>().ok();
+            let judge = |acc: &mut Acc, what: &str, src: &str, ctx: &tera::Context, want: Option<String>| {
+                // want = Some(text): the render, if it succeeds, must print exactly this; None: must be refused
+                let out = engine::render_str(&tera_inst, src, ctx, false);
+                let class = match (&out, &want) {
+                    (Out::Ok(t), Some(w)) if t == w => "exact",
+                    (Out::Err(..), _) => "refused",
+                    (Out::Ok(_), _) => {
+                        acc.violation(
+                            format!("literal:{what}:wrong-value"),
+                            format!("{src} gave {}, expected {}", out.show(), match &want { Some(w) => format!("{w:?} or a refusal"), None => "a refusal (the exact value does not fit 128 bits)".into() }),
+                            || json!({"template": src, "expected": want}),
+                        );
+                        "WRONG"
+                    }
+                    (Out::Panic(p), _) => {
+                        acc.violation(format!("literal:{what}:panic"), format!("{src} panicked: {p}"), || json!({"template": src}));
+                        "PANIC"
+                    }
+                };
+                acc.case(true, &format!("literal:{what}:{class}"));
+                acc.count(&format!("literal {class}"), 1);
+            };
+            let empty = tera::Context::new();
+            judge(acc, "print", &format!("{{{{ {la} }}}}"), &empty, Some(la.clone()));
+            judge(acc, "negate", &format!("{{{{ -{la} }}}}"), &empty, Some(if la == "0" { "0".into() } else { format!("-{la}") }));
+            // the same number from the context, in every encoding that holds it
+            let mut same: Vec<V> = vec![];
+            if let Ok(x) = la.parse::<i64>() { same.push(V::I64(x)); }
+            if let Ok(x) = la.parse::<u64>() { same.push(V::U64(x)); }
+            if let Ok(x) = la.parse::<i128>() { same.push(V::I128(x)); }
+            if let Ok(x) = la.parse::<u128>() { same.push(V::U128(x)); }
+            for v in &same {
+                let ctx = vals::context(&[("a", v)]);
+                judge(acc, "eq-context", &format!("{{{{ a == {la} }}}}"), &ctx, Some("true".into()));
+                judge(acc, "ne-context", &format!("{{{{ {la} != a }}}}"), &ctx, Some("false".into()));
+            }
+            for lb in &lit_digits {
+                let ord = num_cmp(la, lb);
+                judge(acc, "eq", &format!("{{{{ {la} == {lb} }}}}"), &empty, Some((ord == std::cmp::Ordering::Equal).to_string()));
+                judge(acc, "lt", &format!("{{{{ {la} < {lb} }}}}"), &empty, Some((ord == std::cmp::Ordering::Less).to_string()));
+                let (xa, xb) = (as_i128(la), as_i128(lb));
+                let diff = match (xa, xb) { (Some(x), Some(y)) => x.checked_sub(y).map(|d| d.to_string()), _ => None };
+                let sum = match (xa, xb) { (Some(x), Some(y)) => x.checked_add(y).map(|d| d.to_string()), _ => None };
+                judge(acc, "minus", &format!("{{{{ {la} - {lb} }}}}"), &empty, diff);
+                judge(acc, "plus", &format!("{{{{ {la} + {lb} }}}}"), &empty, sum);
+            }
+        },
+    );
+
     if run.is_supervisor() {
+        let (ex, re) = (run.counter("literal exact"), run.counter("literal refused"));
+        run.guard("integer-literals-both-outcomes", ex > 100 && re > 100, format!("exact={ex} refused={re}"));
         for op in ARITH_OPS.iter().copied().chain(["neg"]) {
             let (ok, err) = (run.counter(&format!("op {op} ok")), run.counter(&format!("op {op} err")));
             run.guard(&format!("both-outcomes:{op}"), ok > 0 && err > 0, format!("ok={ok} err={err}"));
